@@ -712,3 +712,147 @@ Example decoded_objects_round_trip :
   | _ => False
   end.
 Proof. vm_compute. repeat split; reflexivity. Qed.
+
+(* ---------- the end time can leave the parse limit by rounding: the line is then REJECTED ---------- *)
+
+(* an object that satisfies everything of [object_ok] except that start + duration, though
+   finite, is outside the parse limits *)
+Definition end_beyond_limit (h : HitObject) : bool :=
+  in_lim64 (h_start h) && forallb sample_ok (h_samples h) &&
+  match h_kind h with
+  | KSpinner s => coord_ok (px (sp_pos s)) && coord_ok (py (sp_pos s)) &&
+                  is_finite (D.add (h_start h) (sp_duration s)) && negb (in_lim64 (D.add (h_start h) (sp_duration s)))
+  | KHold hd => coord_ok (hd_pos_x hd) &&
+                is_finite (D.add (h_start h) (hd_duration hd)) && negb (in_lim64 (D.add (h_start h) (hd_duration hd)))
+  | _ => false
+  end.
+
+Section Beyond.
+  Variables (fmt_f64 : F64 -> str) (fmt_f32 : F32 -> str) (fmt_int : Z -> str).
+  Hypothesis Hfmt : fmt_ok fmt_f64 fmt_f32 fmt_int.
+  Notation rline := (render fmt_f64 fmt_f32 fmt_int).
+  Notation xhead := (extras_head fmt_int).
+  Notation htext := (head_text fmt_f64 fmt_f32 fmt_int).
+
+  Lemma pn_f64_fmt_beyond x : is_finite x = true -> in_lim64 x = false -> pn_f64 (fmt_f64 x) = None.
+  Proof.
+    intros Hf Hl. destruct (pn_f64 (fmt_f64 x)) as [y|] eqn:E; [|reflexivity]. exfalso.
+    apply pn_f64_spec in E. destruct E as (E1 & E2 & E3 & E4).
+    rewrite (plain_trim _ (f64_chars _ _ _ Hfmt x)), (f64_parse _ _ _ Hfmt x Hf) in E1. inversion E1; subst y.
+    unfold in_lim64 in Hl. change lim64 with f64_limit in Hl. rewrite E2, E3, E4 in Hl. discriminate.
+  Qed.
+
+  Theorem end_beyond_limit_rejected dist mode h l :
+    end_beyond_limit h = true -> object_line dist mode h = Done l ->
+    forall st, parse_hit_objects st (rline l) = Done (st, Rejected).
+  Proof.
+    intros Hb Hl st. unfold end_beyond_limit in Hb.
+    apply andb_true_iff in Hb. destruct Hb as [Hb Hc]. apply andb_true_iff in Hb. destruct Hb as [Ht Hs].
+    pose proof (extras_vals_ok (h_samples h) mode Hs) as EV.
+    pose proof (render_extras fmt_f64 fmt_f32 fmt_int (h_samples h) mode) as RE.
+    destruct (extras_vals (h_samples h) mode) as [[[[nb ab] cu] vo] f] eqn:EVs.
+    destruct EV as (E1 & E2 & E3 & E4 & E5 & E6 & E7 & E8).
+    destruct (h_kind h) as [c|sl|s|hd] eqn:Hk; try discriminate.
+    - (* spinner *)
+      apply andb_true_iff in Hc. destruct Hc as [Hc He]. apply andb_true_iff in Hc. destruct Hc as [Hc Hfin].
+      apply andb_true_iff in Hc. destruct Hc as [Cx Cy]. apply negb_true_iff in He.
+      unfold object_line in Hl. rewrite Hk in Hl. cbn [obind] in Hl. unfold object_pos in Hl.
+      rewrite Hk in Hl. inversion Hl; subst l; clear Hl.
+      set (K := object_type h). set (S := sound_type_of (h_samples h)). set (E := D.add (h_start h) (sp_duration s)) in *.
+      assert (EL : rline ([TF32 (px (sp_pos s)); t_comma; TF32 (py (sp_pos s)); t_comma; TF64 (h_start h); t_comma;
+                           TInt K; t_comma; TInt S; t_comma] ++ [TF64 E; t_comma] ++
+                          sample_bank_toks (h_samples h) false mode)
+                   = htext (px (sp_pos s)) (py (sp_pos s)) (h_start h) K S ++
+                     (fmt_f64 E ++ comma :: xhead nb ab cu vo) ++ f).
+      { rewrite !render_app, RE. unfold render, head_text. cbn [flat_map render_tok t_comma].
+        rewrite !app_nil_r. unfold comma. repeat (progress (rewrite <- ?app_assoc; cbn [app])). reflexivity. }
+      cbn [app] in EL |- *. rewrite EL. clear EL RE.
+      pose proof (spinner_type_bits (sp_new_combo s)) as HK.
+      cbv zeta in HK. replace (Z.lor _ hot_spinner) with K in HK by (unfold K, object_type; rewrite Hk; reflexivity).
+      destruct HK as (HK & T1 & T2).
+      assert (Rsafe : forallb safec (fmt_f64 E ++ comma :: xhead nb ab cu vo) = true).
+      { rewrite forallb_app. cbn [forallb]. rewrite (f64_safe _ _ _ Hfmt), (extras_head_safe _ _ _ Hfmt). reflexivity. }
+      unfold parse_hit_objects.
+      rewrite (parse_header_line _ _ _ Hfmt _ _ _ K S _ f Cx Cy Ht HK (sound_type_range _) Rsafe E7 E8).
+      unfold parse_kind. cbn [hd_type hd_rest hd_pos hd_new_combo hd_combo_offset hd_sound hd_start].
+      rewrite T1.
+      change (has_flag hot_spinner hot_circle) with false. change (has_flag hot_spinner hot_slider) with false.
+      change (has_flag hot_spinner hot_spinner) with true. cbv iota.
+      rewrite <- app_assoc. cbn [app].
+      rewrite (split_on_field comma (fmt_f64 E)) by (apply (f64_no _ _ _ Hfmt); reflexivity).
+      rewrite (pn_f64_fmt_beyond E Hfin He). reflexivity.
+    - (* hold *)
+      apply andb_true_iff in Hc. destruct Hc as [Hc He]. apply andb_true_iff in Hc. destruct Hc as [Cx Hfin].
+      apply negb_true_iff in He.
+      unfold object_line in Hl. rewrite Hk in Hl. cbn [obind] in Hl. unfold object_pos in Hl.
+      rewrite Hk in Hl. cbn [px py] in Hl. inversion Hl; subst l; clear Hl.
+      set (K := object_type h). set (S := sound_type_of (h_samples h)). set (E := D.add (h_start h) (hd_duration hd)) in *.
+      assert (EL : rline ([TF32 (hd_pos_x hd); t_comma; TF32 f32_192; t_comma; TF64 (h_start h); t_comma;
+                           TInt K; t_comma; TInt S; t_comma] ++ [TF64 E; t_colon] ++
+                          sample_bank_toks (h_samples h) false mode)
+                   = htext (hd_pos_x hd) f32_192 (h_start h) K S ++
+                     (fmt_f64 E ++ colon :: xhead nb ab cu vo) ++ f).
+      { rewrite !render_app, RE. unfold render, head_text. cbn [flat_map render_tok t_comma t_colon].
+        rewrite !app_nil_r. unfold comma, colon. repeat (progress (rewrite <- ?app_assoc; cbn [app])). reflexivity. }
+      cbn [app] in EL |- *. rewrite EL. clear EL RE.
+      pose proof hold_type_bits as HK.
+      replace hot_hold with K in HK at 1 2 3 by (unfold K, object_type; rewrite Hk; reflexivity).
+      destruct HK as (HK & T1).
+      assert (Rsafe : forallb safec (fmt_f64 E ++ colon :: xhead nb ab cu vo) = true).
+      { rewrite forallb_app. cbn [forallb]. rewrite (f64_safe _ _ _ Hfmt), (extras_head_safe _ _ _ Hfmt). reflexivity. }
+      unfold parse_hit_objects.
+      rewrite (parse_header_line _ _ _ Hfmt _ _ _ K S _ f Cx coord_192 Ht HK (sound_type_range _) Rsafe E7 E8).
+      unfold parse_kind. cbn [hd_type hd_rest hd_pos hd_new_combo hd_combo_offset hd_sound hd_start].
+      rewrite T1.
+      change (has_flag hot_hold hot_circle) with false. change (has_flag hot_hold hot_slider) with false.
+      change (has_flag hot_hold hot_spinner) with false. change (has_flag hot_hold hot_hold) with true. cbv iota.
+      rewrite <- app_assoc. cbn [app].
+      rewrite split_no_comma.
+      2:{ rewrite memb_app, memb_cons, memb_app, (extras_head_no_comma _ _ _ Hfmt), E6, (f64_no _ _ _ Hfmt comma) by reflexivity. reflexivity. }
+      cbn [next fst].
+      assert (NE : forall x : str, x <> [] -> nonempty (Some x) = Some x) by (intros [|? ?] ?; [congruence|reflexivity]).
+      rewrite NE by (destruct (fmt_f64 E) eqn:EE; [exact (fun _ => f64_nonempty _ _ _ Hfmt E EE)|discriminate]).
+      change 58 with colon.
+      rewrite (split_on_field colon (fmt_f64 E)) by (apply (f64_no _ _ _ Hfmt); reflexivity).
+      rewrite (pn_f64_fmt_beyond E Hfin He). reflexivity.
+  Qed.
+End Beyond.
+
+(* the decoder's image contains such objects: a spinner / a hold that ends at the parse limit
+   and starts at a negative non-integer time: fl(start + fl(end - start)) = 2147483647.0000002 *)
+Definition beyond_text : str :=
+  join_lines ["osu file format v14"; "[HitObjects]";
+              "256,192,-3112.53,12,0,2147483647,0:0:0:0:";
+              "100,192,-3112.53,128,0,2147483647:0:0:0:0:"]%string.
+
+Lemma beyond_witness :
+  match decode_beatmap stub_dist (lines_of_text beyond_text) with
+  | Done m => map end_beyond_limit (hov_hit_objects (bmv_ho m)) = [true; true] /\
+              map (fun h => kind_tag (h_kind h)) (hov_hit_objects (bmv_ho m)) = [2; 3]
+  | _ => False
+  end.
+Proof. vm_compute. split; reflexivity. Qed.
+
+(* T02b / T04b on the decoder's image, REFUTED: the two decoded objects of [beyond_text] are
+   written as lines that parse_hit_objects rejects, in every parser state and for every
+   formatting function satisfying [fmt_ok]: the objects are lost by decode -> encode -> decode *)
+Theorem decoded_end_beyond_limit_refuted :
+  exists text m, decode_beatmap stub_dist (lines_of_text text) = Done m /\
+  hov_hit_objects (bmv_ho m) <> [] /\
+  forall fmt_f64 fmt_f32 fmt_int, fmt_ok fmt_f64 fmt_f32 fmt_int ->
+  forall h, In h (hov_hit_objects (bmv_ho m)) ->
+  forall dist mode l, object_line dist mode h = Done l ->
+  forall st, parse_hit_objects st (render fmt_f64 fmt_f32 fmt_int l) = Done (st, Rejected).
+Proof.
+  exists beyond_text. pose proof beyond_witness as W.
+  destruct (decode_beatmap stub_dist (lines_of_text beyond_text)) as [m| |]; try contradiction.
+  exists m. destruct W as [W _]. split; [reflexivity|]. split.
+  - destruct (hov_hit_objects (bmv_ho m)); discriminate.
+  - intros f64 f32 fi Hfmt h Hin dist mode l Hl st.
+    apply (end_beyond_limit_rejected f64 f32 fi Hfmt dist mode h l); [|exact Hl].
+    assert (G : forall l0 : list HitObject, forallb end_beyond_limit l0 = true -> In h l0 -> end_beyond_limit h = true).
+    { intros l0 H0 Hi. rewrite forallb_forall in H0. exact (H0 h Hi). }
+    apply (G (hov_hit_objects (bmv_ho m))); [|exact Hin].
+    clear - W. destruct (hov_hit_objects (bmv_ho m)) as [|x [|y [|z r]]]; try discriminate W.
+    cbn [map] in W. injection W as H1 H2. cbn [forallb]. rewrite H1, H2. reflexivity.
+Qed.
